@@ -23,7 +23,7 @@ CONSTANTS Ctors,      \* subset of node constructors to enumerate
           ExportMod   \* export about one behaviour in ExportMod (seeded sampling)
 
 VARIABLES st, hist, coneB, acts,
-          noops   \* API actions so far that left the engine state unchanged (see Do)
+          noops   \* the API action (at most one per behaviour) that left the engine state unchanged (see Do)
 
 vars == <<st, hist, coneB, acts, noops>>
 Vals == {I(x) : x \in 0..(K - 1)}
@@ -68,12 +68,14 @@ OnlyNewRets(s) == IF Ok(s) THEN [s EXCEPT !.retLog = SubSeq(@, Len(st.retLog) + 
 \* spec treats as a no-op (a second unsubscribe of the same token, a write of ... ) would never be
 \* exported: the shorter history reaches the same state first.  Code that mishandles exactly such
 \* calls would escape.  One no-op per behaviour is therefore made part of the state.
-MaxNoops == 1
+\* The no-op action itself (not just a count) is kept, so that different kinds of no-ops do not
+\* shadow one another.
+NoNoop == [a |-> "none"]
 Do(a, s) == LET r == Settle(HoldFor(a, OnlyNewRets(s)))
                 same == Ok(r) /\ [r EXCEPT !.retLog = st.retLog] = st
             IN /\ st' = r
-               /\ noops' = IF same THEN noops + 1 ELSE noops
-               /\ noops' <= MaxNoops
+               /\ (same => noops = NoNoop)
+               /\ noops' = IF same THEN a ELSE noops
                /\ hist' = IF Ok(s) /\ a.a \in {"write", "observe", "observe_leaked", "obs_drop", "obs_clone", "disallow",
                                               "subscribe", "unsubscribe", "state_unsubscribe", "drop", "drop_var"}
                           THEN Append(Append(hist, a), ReadsOf(r))
@@ -359,13 +361,14 @@ RecoverA ==
   /\ UNCHANGED <<coneB, acts, noops>>
 \* C13/C19: a further stabilise on a poisoned state refuses to run
 BeginPoisoned ==
-  /\ Ok(st) /\ st.poisoned /\ st.status # "idle" /\ acts < MaxActs
-  /\ st' = StabiliseBegin(ApiClearLogs(st))
+  \* (once per behaviour; `refused` is part of the state so that the attempt is not deduplicated away)
+  /\ Ok(st) /\ st.poisoned /\ st.status # "idle" /\ st.refused = 0
+  /\ st' = StabiliseBegin(ApiClearLogs([st EXCEPT !.refused = 1]))
   /\ hist' = Append(hist, [a |-> "stabilise"])
   /\ acts' = acts + 1
   /\ UNCHANGED <<coneB, noops>>
 
-Init == /\ st = InitState(MaxH) /\ hist = <<>> /\ coneB = {} /\ acts = 0 /\ noops = 0
+Init == /\ st = InitState(MaxH) /\ hist = <<>> /\ coneB = {} /\ acts = 0 /\ noops = NoNoop
 Next == Scripted \/ Create \/ CloneObs \/ SetMaxH \/ DropHandle \/ Write \/ SubscribeA \/ UnsubscribeA \/ Observe \/ ObserveLeaked \/ DropObs \/ Disallow
         \/ Begin \/ Step \/ EndA \/ HandlersStep \/ Finish \/ RecoverA \/ BeginPoisoned
 Spec == Init /\ [][Next]_vars
@@ -395,8 +398,12 @@ InvHeightExact == HeightExact(st)
 \* behaviour export: one REPLAY line per maximal behaviour
 Done == /\ Ok(st) /\ Len(hist) > 0
         /\ \/ (st.status = "idle" /\ (st.round >= MaxRounds \/ acts >= MaxActs) /\ hist[Len(hist)].a = "expect")
-           \/ (st.poisoned /\ acts >= MaxActs /\ hist[Len(hist)].a = "expect_panic")
-InvExport == (Export /\ Done /\ (ExportMod = 1 \/ RandomElement(1..ExportMod) = 1))
+           \/ (st.poisoned /\ st.refused = 1 /\ hist[Len(hist)].a = "expect_panic")
+\* stratified sampling: behaviours with a no-op action are rare and are sampled three times as densely
+RareMod == IF ExportMod <= 3 THEN 1 ELSE ExportMod \div 3
+InvExport == (Export /\ Done /\ (\/ ExportMod = 1
+                                  \/ (noops # NoNoop /\ RandomElement(1..RareMod) = 1)
+                                  \/ RandomElement(1..ExportMod) = 1))
                 => PrintT(<<"REPLAY", ToJson(hist)>>)
 
 ---------------------------------------------------------------------------
@@ -452,6 +459,13 @@ ProgHeightBind == <<[a |-> "var", v |-> I(0)], [a |-> "var", v |-> I(0)],
 ProgScopeCycle == <<[a |-> "var", v |-> I(0)], [a |-> "var", v |-> NR(1)],
                     [a |-> "bind", in |-> 2, recipe |-> [r |-> "ref"]],
                     [a |-> "bind", in |-> 4, recipe |-> [r |-> "leak", then |-> [r |-> "map", f |-> "add", over |-> 1]]]>>
+
+\* one observer with two subscriptions on a var: every history of unsubscribes / writes / stabilises (K = 2)
+ProgSubs == <<[a |-> "var", v |-> I(0)], [a |-> "observe", n |-> 1],
+              [a |-> "subscribe", o |-> 1, eff |-> <<>>], [a |-> "subscribe", o |-> 1, eff |-> <<>>]>>
+\* a subscription whose handler panics, next to a map whose function panics at its 2nd run (K = 2)
+ProgPanic == <<[a |-> "var", v |-> I(0)], [a |-> "map", f |-> "id", in |-> 1, eff |-> <<[e |-> "panic", at |-> 2]>>],
+               [a |-> "observe", n |-> 1], [a |-> "subscribe", o |-> 1, eff |-> <<[e |-> "panic", at |-> 0]>>]>>
 
 \* compact view of a state for counterexamples
 Alias == [status |-> st.status, panic |-> st.panic, num |-> st.num, chain |-> st.chain,
